@@ -632,10 +632,12 @@ var tFirst, tRounds time.Duration
 var tModel, tSeq, tConc, tE2E, tDisk time.Duration
 
 type runner struct {
-	f    *common.Flags
-	res  *common.Result
-	mc   *modelConn
-	ndir int
+	raceLog  string         // path prefix of the race detector's log files ("" = unknown)
+	raceSeen map[string]int // bytes of each log file already reported
+	f        *common.Flags
+	res      *common.Result
+	mc       *modelConn
+	ndir     int
 }
 
 func init() { log.SetOutput(io.Discard) }
@@ -813,8 +815,9 @@ func (rn *runner) evalDir(td *TestDir, seed uint64, only *request, report bool) 
 		if impl[i].Err != "" {
 			if report {
 				rn.res.Count("http-error")
-				rn.res.Notes = append(rn.res.Notes, "HTTP error: "+impl[i].Err)
 			}
+			fail("impl-violation", "no-response/"+q.Class, q.URL, "", "transport error: "+impl[i].Err,
+				"the server did not answer the request (handler panic / connection closed); the model says "+clip([]byte(seqAns[i])))
 			continue
 		}
 		if !td.Clean {
@@ -891,7 +894,9 @@ func (rn *runner) evalDir(td *TestDir, seed uint64, only *request, report bool) 
 						if report {
 							rn.res.Count("http-error")
 						}
-						continue
+						fail("impl-violation", "concurrent/first-requests", jb.q.URL, "", "transport error: "+out[j][k].Err,
+							"a concurrent first request on a fresh server was not answered (connection closed / reset), sequential response: "+clip([]byte(seqObs)))
+						break
 					}
 					ob := out[j][k].obs()
 					if report {
@@ -923,6 +928,9 @@ func (rn *runner) evalDir(td *TestDir, seed uint64, only *request, report bool) 
 					}
 				}
 			}
+		}
+		if g := rn.raceLogGrowth(); strings.Contains(g, "DATA RACE") {
+			fail("impl-violation", "concurrent/race-detector", jobs[0].q.URL, "", "", raceSummary(g))
 		}
 		// the model's own interleavings: random schedules over the same requests must give the
 		// per-request responses of fresh servers (this is what concurrent_same states)
@@ -1117,6 +1125,7 @@ func main() {
 	if prop == "" {
 		prop = "C20"
 	}
+	raceLog := reexecWithRaceLog(f.Work)
 	res := common.NewResult(prop, f.Tier, f.Seed)
 	if f.Work == "" {
 		d, _ := os.MkdirTemp("", "proxy-run-")
@@ -1137,7 +1146,7 @@ func main() {
 		res.Notes = append(res.Notes, "pseudoVersionRE source does not compile: "+err.Error())
 		mc.pseudoRE = regexp.MustCompile(`^$`)
 	}
-	rn := &runner{f: f, res: res, mc: mc}
+	rn := &runner{f: f, res: res, mc: mc, raceLog: raceLog, raceSeen: map[string]int{}}
 
 	if f.Replay != "" {
 		rp, err := common.LoadReplay(f.Replay)
@@ -1149,6 +1158,14 @@ func main() {
 		if err := json.Unmarshal([]byte(rp.Violation.Input["dir"]), &td); err != nil {
 			fmt.Fprintln(os.Stderr, "replay has no directory:", err)
 			os.Exit(2)
+		}
+		if td.Big != nil {
+			for _, fl := range rn.bigOne(*td.Big, true) {
+				rn.violateBig(*td.Big, fl)
+			}
+			res.Rule = "replay of the concurrent first requests on one big module"
+			res.Write(f.Out)
+			return
 		}
 		var only *request
 		if u := rp.Violation.Input["url"]; u != "" && rp.Violation.Input["class"] != "whole-directory" {
@@ -1255,14 +1272,16 @@ func main() {
 	// 4. escaping compared directly with x/mod
 	rn.escapeChecks(r.Fork(), nEsc)
 	// 5. go mod download end to end
+	// 5a. concurrent first requests on big archives
+	rn.bigPhase(f.Seed, f.Tier)
 	t3 := time.Now()
 	rn.goModDownload(all, nE2E)
 	tE2E = time.Since(t3)
-	res.Notes = append(res.Notes, fmt.Sprintf("time: model %.1fs (first pass %.1fs, oracle rounds %.1fs), sequential HTTP %.1fs, concurrent HTTP %.1fs, go mod download %.1fs", tModel.Seconds(), tFirst.Seconds(), tRounds.Seconds(), tSeq.Seconds(), tConc.Seconds(), tE2E.Seconds()))
+	res.Notes = append(res.Notes, fmt.Sprintf("time: model %.1fs (first pass %.1fs, oracle rounds %.1fs), sequential HTTP %.1fs, concurrent HTTP %.1fs, big-archive concurrent rounds %.1fs, go mod download %.1fs", tModel.Seconds(), tFirst.Seconds(), tRounds.Seconds(), tSeq.Seconds(), tConc.Seconds(), tBig.Seconds(), tE2E.Seconds()))
 
 	res.Notes = append(res.Notes, fmt.Sprintf("%d oracle-table entries supplied to the model on demand in %d rounds, %d requests re-asked (x/mod CheckPath, checkElem, Check, semver.IsValid/Compare, pseudoVersionRE, json Short)", mc.supplied, mc.rounds, mc.reasked),
 		"module paths and versions containing \"_\" are excluded from the direct oracles (ambiguous on-disk naming); such directories are compared with the model only")
-	res.Rule = fmt.Sprintf("corpus, /repo's testdata/mod, %d clean generated module directories (1-3 modules x 1-4 versions: upper-case and nested paths, major suffixes, gopkg.in; semver, prerelease, pseudo, +incompatible, mismatching and invalid versions; .txt/.txtar/directory layouts; .info/.mod present or missing, nested, dot and empty files) and %d directories outside the naming discipline (two layouts at once, versions without v, underscores, undecodable names, wrong entry kinds, hand-written archives), each served by a real goproxytest.Server; per directory: list/info/mod/zip of every stored version, unknown modules/versions/extensions, a third of %d fixed malformed URLs (all in thorough), commit-hash requests, mutated URLs, then 16 concurrent first requests for each of up to 5 URLs (16 in thorough) on a fresh server and one random interleaving of the model's handlers; %d escape/unescape strings against x/mod; a case is one HTTP request (non-trivial unless a fixed malformed URL answered 404); distinct = distinct (directory, URL, response)", nClean, nOdd, len(malformed), nEsc)
+	res.Rule = fmt.Sprintf("corpus, /repo's testdata/mod, %d clean generated module directories (1-3 modules x 1-4 versions: upper-case and nested paths, major suffixes, gopkg.in; semver, prerelease, pseudo, +incompatible, mismatching and invalid versions; .txt/.txtar/directory layouts; .info/.mod present or missing, nested, dot and empty files) and %d directories outside the naming discipline (two layouts at once, versions without v, underscores, undecodable names, wrong entry kinds, hand-written archives), each served by a real goproxytest.Server; per directory: list/info/mod/zip of every stored version, unknown modules/versions/extensions, a third of %d fixed malformed URLs (all in thorough), commit-hash requests, mutated URLs, then 16 concurrent first requests for each of up to 5 URLs (16 in thorough) on a fresh server and one random interleaving of the model's handlers; then 3 big modules (0.6-1.2 MB under the race detector, where loading and zipping them takes 100 ms and more: 600-member .txt archive, 250-file directory, 4 x 300 kB .txtar; 3-30 MB in thorough) each served by fresh servers hit by 16-32 first requests for info/mod/zip staggered by 0-5 ms, 3 rounds each, every response required to be 200 with the stored body, and the race detector's log read after every concurrent round; %d escape/unescape strings against x/mod; a case is one HTTP request (non-trivial unless a fixed malformed URL answered 404); distinct = distinct (directory, URL, response)", nClean, nOdd, len(malformed), nEsc)
 	res.Write(f.Out)
 }
 
